@@ -126,6 +126,10 @@ func allLints(f *Func) []LintHit {
 		out = append(out, LintHit{"lastwins", fmt.Sprintf("%s#lastwins(%s)", f.Name, x.Var.Name()), x.Assign.Pos(),
 			fmt.Sprintf("%s is assigned a value computed from the loop element on every iteration, is never tested inside the loop and is read after it: only the last element decides although the flag answers whether any (or every) element has the quality", x.Var.Name())})
 	}
+	for _, x := range UnusedIndexGuards(f) {
+		out = append(out, LintHit{"guardidx", fmt.Sprintf("%s#guardidx(%s)", f.Name, x.Var.Name()), x.If.Pos(),
+			fmt.Sprintf("the guard establishes that %s is a valid position (%s) and the body indexes a sequence, but never with %s: another element than the one found is read or moved", x.Var.Name(), Src(f.Pkg.Fset, x.If.Cond), x.Var.Name())})
+	}
 	for _, x := range WrongSides(f) {
 		out = append(out, LintHit{"wrongside", fmt.Sprintf("%s#side(%s)", f.Name, x.Has), x.Sel.Pos(),
 			fmt.Sprintf("a method of %s reads %s although the same struct has %s: the flag of the other side decides a matter of this side", types.ExprString(f.Decl.Recv.List[0].Type), x.Has, x.Twin)})
@@ -2995,6 +2999,72 @@ func LastWinsFlags(f *Func) []LastWinsFlag {
 			})
 			if !readIn && readAfter {
 				out = append(out, LastWinsFlag{v, as})
+			}
+		}
+		return true
+	})
+	return out
+}
+
+// UnusedIndexGuard is an if statement whose condition tests that an integer variable is a found position
+// (v >= 0, v > -1, v != -1) and whose body indexes some sequence but never mentions v: the position that was
+// searched for and validated is not the one used.
+type UnusedIndexGuard struct {
+	Var *types.Var
+	If  *ast.IfStmt
+}
+
+func UnusedIndexGuards(f *Func) []UnusedIndexGuard {
+	info := f.Pkg.TypesInfo
+	var out []UnusedIndexGuard
+	ast.Inspect(f.Decl.Body, func(n ast.Node) bool {
+		is, ok := n.(*ast.IfStmt)
+		if !ok || is.Else != nil {
+			return true
+		}
+		var cand []*types.Var
+		ast.Inspect(is.Cond, func(m ast.Node) bool {
+			be, ok := m.(*ast.BinaryExpr)
+			if !ok {
+				return true
+			}
+			id, ok := be.X.(*ast.Ident)
+			if !ok {
+				return true
+			}
+			v, ok := info.ObjectOf(id).(*types.Var)
+			if !ok || v.IsField() {
+				return true
+			}
+			if b, ok := v.Type().Underlying().(*types.Basic); !ok || b.Info()&types.IsInteger == 0 {
+				return true
+			}
+			y := types.ExprString(be.Y)
+			if (be.Op == token.GEQ && y == "0") || (be.Op == token.GTR && y == "-1") || (be.Op == token.NEQ && y == "-1") {
+				cand = append(cand, v)
+			}
+			return true
+		})
+		for _, v := range cand {
+			indexes, mentions := false, false
+			ast.Inspect(is.Body, func(m ast.Node) bool {
+				switch x := m.(type) {
+				case *ast.IndexExpr:
+					if tv, ok := info.Types[x.X]; ok {
+						switch tv.Type.Underlying().(type) {
+						case *types.Slice, *types.Array:
+							indexes = true
+						}
+					}
+				case *ast.Ident:
+					if info.ObjectOf(x) == v {
+						mentions = true
+					}
+				}
+				return true
+			})
+			if indexes && !mentions {
+				out = append(out, UnusedIndexGuard{v, is})
 			}
 		}
 		return true
